@@ -39,6 +39,7 @@ type Run struct {
 	perturb   bool
 	ctr       atomic.Uint64
 	extra     func(point string, a ...any) // property-specific handler, called before recording
+	after     func(point string, a ...any) // property-specific handler, called after recording (the event is in the trace)
 	annotate  func(ev map[string]any)      // property-specific labels added to origin and outlink events
 	started   bool
 	lastEvent atomic.Int64 // unix nanos of the last hook / origin event (idle detection)
@@ -227,9 +228,14 @@ func (r *Run) hook(point string, a ...any) {
 		r.tr.Emit(map[string]any{"ev": point, "u": a[0], "type": a[1], "found": a[2], "as": a[3]})
 	case "stop.step":
 		r.tr.Emit(map[string]any{"ev": point, "step": a[0]})
+	case "reactor.finish.deleted": // the seed left the state table; its token is released right after
+		r.tr.Emit(map[string]any{"ev": point, "id": a[0]})
 	case "pre.start", "pre.exit", "arch.start", "arch.exit", "post.start", "post.exit", "fin.start", "fin.exit",
 		"pre.paused", "pre.woken", "arch.paused", "arch.woken", "post.paused", "post.woken", "fin.paused", "fin.woken":
 		r.tr.Emit(map[string]any{"ev": point, "w": a[0]})
+	}
+	if r.after != nil {
+		r.after(point, a...)
 	}
 }
 
@@ -272,8 +278,14 @@ func (r *Run) Preload(seeds []Seed) error {
 }
 
 // Rows returns the current content of the queue (read-only connection).
-func (r *Run) Rows() ([]map[string]any, error) {
-	db, err := sql.Open("sqlite3", "file:"+filepath.Join(r.cfg.JobPath, "lq.db")+"?mode=ro")
+func (r *Run) Rows() ([]map[string]any, error) { return r.rows("?mode=ro") }
+
+// RowsRecover reads the queue through a read-write connection: after a kill the database may need the journal
+// replayed, which a read-only connection cannot do (only used while no crawler is running on the job).
+func (r *Run) RowsRecover() ([]map[string]any, error) { return r.rows("") }
+
+func (r *Run) rows(opts string) ([]map[string]any, error) {
+	db, err := sql.Open("sqlite3", "file:"+filepath.Join(r.cfg.JobPath, "lq.db")+opts)
 	if err != nil {
 		return nil, err
 	}
